@@ -123,6 +123,8 @@ func runTunnels(prop string) {
 		}
 	}
 	ts := NewTunnelSet(m)
+	defer ts.CleanupFiles()
+	ts.DecideDelivery = prop == "C07"
 	ts.SlowConnects = prop == "C16" || prop == "C17"
 	maxBytes := 200_000
 	if prop == "C07" && simrt.Chance(1, 8, "huge") {
@@ -156,6 +158,24 @@ func runTunnels(prop string) {
 			ts.Add(&Tunnel{Kind: "icmp", Ingress: 0, Exit: m.TunnelExit, Up: 1 + simrt.Choose(24, "icmpcount")})
 		}
 		simrt.Probe("icmp_tunnel")
+	}
+	if collisionFree {
+		// remote shell sessions and file transfers (ingress node 0, the run's exit);
+		// C07 draws them often, never more than a few at a time
+		num, den := 1, 4
+		if prop == "C07" {
+			num, den = 1, 2
+		}
+		if simrt.Chance(num, den, "shell-tunnel") {
+			for q := 1 + simrt.Choose(2, "shellsessions"); q > 0; q-- {
+				ts.Add(drawShellTunnel(m, prop))
+			}
+		}
+		if simrt.Chance(num, den, "file-tunnel") {
+			for q := 1 + simrt.Choose(2, "filetransfers"); q > 0; q-- {
+				ts.Add(drawFileTunnel(m, prop))
+			}
+		}
 	}
 	if (prop == "C16" || prop == "C07") && collisionFree && simrt.Chance(1, 8, "stall-scenario") {
 		// a slow reader on one tunnel while a sibling on the same connections
@@ -288,6 +308,14 @@ func (ts *TunnelSet) checkKey(t *Tunnel) {
 	}
 	if t.Kind == "icmp" {
 		ts.checkICMPKey(t)
+		return
+	}
+	if t.Kind == "shell" {
+		ts.checkShellKey(t)
+		return
+	}
+	if t.Kind == "file" {
+		ts.checkFileKey(t)
 		return
 	}
 	if t.key == nil {
@@ -759,6 +787,21 @@ func (ts *TunnelSet) checkDrained() {
 				left += fmt.Sprintf(" %s=%d", k, n)
 			}
 		}
+		// shell sessions and file transfers: reported under a signature of their
+		// own when nothing else is left
+		leftX := shellLeftovers(nd)
+		if nd.Idx == ts.m.TunnelExit {
+			leftX += shellProcessesLeft()
+		}
+		if left == "" && leftX != "" {
+			for _, t := range ts.T {
+				if c, where := ts.collides(t); c {
+					simrt.Failf("stream-id-collision", "bookkeeping left behind after tunnels that shared a stream id at one agent", "%s:%s [%s]", nd.Name, leftX, where)
+				}
+			}
+			simrt.Failf("bookkeeping-not-empty", "shell session or file transfer records remain after all tunnels closed", "%s:%s", nd.Name, leftX)
+		}
+		left += leftX
 		if left != "" {
 			for _, t := range ts.T {
 				if c, where := ts.collides(t); c {
